@@ -85,7 +85,9 @@ def ensure_makefile():
     want = base + "\n".join(srcs) + "\n"
     cur = open(proj).read() if os.path.exists(proj) else ""
     mk = os.path.join(COQ, "Makefile")
-    if cur != want or not os.path.exists(mk):
+    conf = os.path.join(COQ, "Makefile.conf")
+    conf_txt = open(conf).read() if os.path.exists(conf) else ""
+    if cur != want or not os.path.exists(mk) or any(src not in conf_txt for src in srcs):
         with open(proj, "w") as f:
             f.write(want)
         subprocess.run(["coq_makefile", "-f", "_CoqProject", "-o", "Makefile"], cwd=COQ, check=True, capture_output=True)
